@@ -1,5 +1,5 @@
 """C19 — table scripts: Lean theorems about list models of update_ibi_pot, dist_boltzmann_invert, table_linearop, table_scale, potential_shift,
-table_smooth, table_integrate and table_combine (point-wise formulas, carry with flag `o`, grid and flags kept, trapezoid step, zero point of the
+table_smooth, table_integrate, table_combine and table_extrapolate (point-wise formulas, carry with flag `o`, grid and flags kept, trapezoid step, zero point of the
 shift) + correspondence: the REAL Perl scripts run on generated tables, every output row compared."""
 import glob, os, re, sys
 import vlib, vbuild
@@ -45,8 +45,9 @@ def run(tier, seed, replay=None):
         rule="tables of 3..60 rows on uniform grids with random flags (i/o/u); RDF pairs with zeros, values below the 1e-10 threshold and coinciding points, "
              "potential flags u; Boltzmann inversion for non-bonded / bond / angle / dihedral with undefined regions at both ends (incl. the inputs on which the "
              "script dies); a·y+b with and without --withflag; scaling; shifting per interaction type; smoothing (random and straight-line data); integration from "
-             "left and right; combination with + - x d and a scale",
+             "left and right; combination with + - x d and a scale; extrapolation (constant / linear / quadratic / sasha / periodic / exponential, left / right / both, "
+             "--avgpoints 1..5, --curvature, --no-flagupdate; out-of-range runs of 0..4 points at either end, an out-of-range point inside)",
         assumptions=["Perl's floating point and number formatting are not modelled: rows compared with relative tolerance 1e-11",
-                     "logarithms are computed by the harness (python math.log) and handed to the model as witnesses",
-                     "csg_call / csg_table wrappers, table_extrapolate.pl and the differentiation through csg_resample are not run (the latter is C12's spline derivative)"],
+                     "logarithms are computed by the harness (python math.log) and handed to the model as witnesses; the exponential of the exponential extrapolation is a rational Taylor approximation in the driver (rows compared to 1e-9 there)",
+                     "csg_call / csg_table wrappers and the differentiation through csg_resample are not run (the latter is C12's spline derivative)"],
         trivial_tags=())
